@@ -50,7 +50,7 @@ func main() {
 	switch {
 	case l1Props[prop]:
 		os.Exit(runL1(prop, *tier, *solver, seed))
-	case len(kernelPlan(prop, *tier)) > 0:
+	case len(kernelPlan(prop, *tier)) > 0 || len(l2Plan(prop, *tier)) > 0:
 		os.Exit(runKernels(prop, *tier, *solver, seed))
 	default:
 		fmt.Printf("INCONCLUSIVE property=%s no check registered\n", prop)
